@@ -558,6 +558,13 @@ func runC16(c *ctx) error {
 			mk = fam.prefilled
 		}
 		dst := mk()
+		if !pre && i%5 == 2 {
+			// a destination that was used before and reset with s = s[:0]: empty slices whose spare capacity still holds
+			// old elements — nothing of them is part of the destination
+			if staleSpare(reflect.ValueOf(dst).Elem()) {
+				c.res.Hist("dst.reused-slices-with-stale-spare-capacity")
+			}
+		}
 		t := reflect.TypeOf(dst).Elem()
 		doc := c16DocFor(rng, t, 2, ill)
 		if i%97 == 13 {
@@ -736,6 +743,64 @@ func runC16(c *ctx) error {
 	c.res.ModelRequests = total
 	c.res.Mismatches = mm
 	return err
+}
+
+// staleSpare gives every slice field with a composite element type (struct, pointer, map, slice) three non-zero
+// elements and then truncates it to length 0, keeping the capacity. Reports whether it changed anything.
+func staleSpare(v reflect.Value) bool {
+	if v.Kind() != reflect.Struct {
+		return false
+	}
+	changed := false
+	var fill func(e reflect.Value, depth int)
+	fill = func(e reflect.Value, depth int) {
+		switch e.Kind() {
+		case reflect.String:
+			e.SetString("stale")
+		case reflect.Int:
+			e.SetInt(99)
+		case reflect.Float64:
+			e.SetFloat(9.5)
+		case reflect.Bool:
+			e.SetBool(true)
+		case reflect.Struct:
+			for i := 0; i < e.NumField(); i++ {
+				if e.Field(i).CanSet() && depth < 3 {
+					fill(e.Field(i), depth+1)
+				}
+			}
+		case reflect.Pointer:
+			if depth < 3 && e.Type().Elem().Kind() == reflect.Struct && e.Type().Elem().PkgPath() == "main" {
+				e.Set(reflect.New(e.Type().Elem()))
+				fill(e.Elem(), depth+1)
+			}
+		case reflect.Map:
+			if e.Type().Key().Kind() == reflect.String && e.Type().Elem().Kind() == reflect.String {
+				e.Set(reflect.MakeMap(e.Type()))
+				e.SetMapIndex(reflect.ValueOf("stale"), reflect.ValueOf("stale"))
+			}
+		case reflect.Slice:
+			if e.Type().Elem().Kind() == reflect.String {
+				e.Set(reflect.ValueOf([]string{"stale"}))
+			}
+		}
+	}
+	for i := 0; i < v.NumField(); i++ {
+		f := v.Field(i)
+		if !f.CanSet() || f.Kind() != reflect.Slice {
+			continue
+		}
+		switch f.Type().Elem().Kind() {
+		case reflect.Struct, reflect.Pointer, reflect.Map, reflect.Slice:
+			sl := reflect.MakeSlice(f.Type(), 3, 3)
+			for j := 0; j < 3; j++ {
+				fill(sl.Index(j), 0)
+			}
+			f.Set(sl.Slice(0, 0))
+			changed = true
+		}
+	}
+	return changed
 }
 
 // yamlEquivalent: deep equality where yaml.v3 may leave nil what Unmarshal makes empty (and vice versa).
